@@ -64,6 +64,7 @@ def main():
         engines=[
             dict(name="mq-seq", path="harness/src/seq.rs", serves_properties=["C09", "C05", "C11", "C13", "C15", "C03", "C17"], kind_free_text="single-threaded differential execution against the reference model + payload ledger over all teardown orders"),
             dict(name="mq-conc", path="harness/src/conc.rs", serves_properties=["C01", "C02", "C03", "C04", "C05", "C06", "C07", "C10", "C11", "C12", "C13", "C15"], kind_free_text="concurrent scenario engine: boundary history, stall injection at hook sites, quiescent probe, offline checkers"),
+            dict(name="mq-tight", path="harness/src/tight.rs", serves_properties=["C04", "C05"], kind_free_text="free-running contention stress on one shared stream of a tiny queue; payload self-check and ledger only"),
             dict(name="mq-wake", path="harness/src/wake.rs", serves_properties=["C08"], kind_free_text="blocked consumers observed through a spying Wait strategy; frozen-state wake predicate"),
             dict(name="mq-fut", path="harness/src/futx.rs", serves_properties=["C14", "C13", "C15"], kind_free_text="harness-as-executor futures scenarios with probe-poll at quiescence"),
             dict(name="mq-churn", path="harness/src/churn.rs", serves_properties=["C16", "C17"], kind_free_text="reclamation churn under AddressSanitizer/Miri; counting allocator accounting"),
